@@ -38,3 +38,38 @@ func chipMoverInvariant(sub *Ctx, o *Obligation) bool {
 	m := sub.chipMover(sub.engine())
 	return m != nil && strings.HasSuffix(o.Key, "/"+fnKey(m))
 }
+
+// minRaiseSurvivesReload keeps C07's obligations about the serialised form of the state as far as
+// they concern the fields the raise rule reads: the table backend rebuilds the engine from JSON
+// before every operation, so a minimum that does not survive the hop is no minimum.
+func minRaiseSurvivesReload(sub *Ctx, o *Obligation) bool {
+	if o.Rule == "serialized-closure" {
+		return true
+	}
+	if o.Rule != "derived-recomputed" {
+		return false
+	}
+	for _, f := range []string{"PreviousRaiseSize", "CurrentWager", "MiniBet", "CurrentRaiser"} {
+		if strings.Contains(o.Key, "Status."+f) {
+			return true
+		}
+	}
+	return false
+}
+
+// cardsSurviveReload: the same for the card accounts of C14 (deck, cursor, hole cards, board, burn
+// pile): a pile that is dropped by the JSON hop leaves consumed cards that belong to nobody.
+func cardsSurviveReload(sub *Ctx, o *Obligation) bool {
+	if o.Rule == "serialized-closure" {
+		return true
+	}
+	if o.Rule != "derived-recomputed" {
+		return false
+	}
+	for _, f := range []string{"Status.Burned", "Status.Board", "Status.CurrentDeckPosition", "Meta.Deck", "PlayerState.HoleCards"} {
+		if strings.Contains(o.Key, f) {
+			return true
+		}
+	}
+	return false
+}
